@@ -148,7 +148,12 @@ func (c *WebRTCPeer) connect(config *webrtc.Configuration, broker *BrokerChannel
 	// TODO: When go-webrtc is more stable, it's possible that a new
 	// PeerConnection won't need to be re-prepared each time.
 	err := c.preparePeerConnection(config)
-	localDescription := c.pc.LocalDescription()
+	var localDescription *webrtc.SessionDescription
+	if err == nil {
+		// c.pc is nil when the PeerConnection could not be created, e.g.
+		// because of an ICE server URL that pion rejects.
+		localDescription = c.pc.LocalDescription()
+	}
 	c.eventsLogger.OnNewSnowflakeEvent(event.EventOnOfferCreated{
 		WebRTCLocalDescription: localDescription,
 		Error:                  err,
